@@ -149,6 +149,13 @@ fn header_value_byte_change(v: &mut Vec<u8>, t: &mut Tape) {
     }
     // (a byte outside ASCII is preferably changed into another such byte: an obs-text octet is an
     // octet like any other, not "some undecodable character")
+    if let Some(p) = v.windows(3).position(|w| w == b"\xef\xbf\xbd") {
+        if t.chance(2) {
+            // a genuine replacement character becomes a byte that does not decode at all
+            v.splice(p..p + 3, [[0xe9u8, 0xff, 0xc0][t.below(3)]]);
+            return;
+        }
+    }
     let high: Vec<usize> = idx.iter().cloned().filter(|i| v[*i] >= 0x80).collect();
     if !high.is_empty() && t.chance(2) {
         let i = high[t.below(high.len())];
@@ -215,7 +222,7 @@ pub fn apply_logical(kind: &'static str, m: &mut Message, cx: &FaultCtx, t: &mut
                 if cx.node.cfg.fold {
                     return None;
                 }
-                let v: &[u8] = [&b"text/plain"[..], b"application/x-www-form-urlencoded", b"application/json; charset=utf-8"][t.below(3)];
+                let v: &[u8] = [&b"text/plain"[..], b"application/x-www-form-urlencoded", b"application/json; charset=utf-8", b"application/x-www-form-urlencoded; charset=x-no-such-charset", b"text/plain; charset=klingon"][t.below(5)];
                 let pos = t.below(l.headers.len() + 1);
                 l.headers.insert(pos, ("content-type".into(), v.to_vec()));
                 component = "header";
